@@ -376,6 +376,19 @@ func c08Stream(r *eng.Run) {
 	for r.T.Chance(sim.LCtrl, 1, 3) && len(ctrls) < 3 {
 		addCtrl(true)
 	}
+	if !closed && r.T.Chance(sim.LCtrl, 1, 40) {
+		// A peer that pings a lot before it sends its message: every single
+		// ping is answered.
+		for i, n := 0, 120+r.T.Int(sim.LCtrl, 150); i < n; i++ {
+			c := &ref.Frame{Fin: true, Op: ref.OpPing, Payload: []byte{byte(i), byte(i >> 8)}}
+			if side == ref.Server {
+				c.Masked, c.Mask = true, drawMask(r)
+			}
+			frames = append(frames, c)
+			ctrls = append(ctrls, c)
+		}
+		r.Probe("long_run_of_pings_before_the_message")
+	}
 	var msg *Msg
 	if !closed {
 		nfrag := 1 + r.T.Int(sim.LNFrag, 3)
